@@ -41,6 +41,9 @@
 (*  tocompact full_fc_to_compact_fc                                         *)
 (*  sg     set_tensor_symmetry_PJ                                           *)
 (*                                                                          *)
+(* The array operators (one per step) and the definitions live in SymOps.tla; *)
+(* this module is the step machine of ONE routine call and its verdict.       *)
+(*                                                                          *)
 (* Variant names the transcription of the self-paired blocks of the compact *)
 (* loop: "pinned" = the code as pinned (special case only for i = j),       *)
 (* "repaired" = special case for every block that is its own partner.       *)
